@@ -29,6 +29,8 @@ class CheckCategoryUnitSpec(FunctionSpec):
     """returns iff valid(R,c,u), else InvalidUnitError; the verdict is memoised: M' = M[(c,u) ↦ valid]
     on the miss path, M' = M on the hit path (the memo agrees with valid by invariant CC)."""
 
+    probe = "db_lookup"
+
     fq = UDB + ":UnitDatabase.CheckCategoryUnit"
     props = ("C05", "C15")
     callees = (UDB + ":UnitDatabase.GetInfo",)
@@ -86,6 +88,8 @@ class CheckCategoryUnitSpec(FunctionSpec):
 class ConvertScalarValueSpec(FunctionSpec):
     """simple quantity: to_unit == unit ⇒ result is value; else result = conv(unit → resolved to_unit)(value),
     the cached _tobase being the registered to-base function (QI)."""
+
+    probe = "db_lookup"
 
     fq = Q_MOD + ":Quantity.ConvertScalarValue"
     props = ("C02", "C05", "C12")
